@@ -58,6 +58,8 @@ def main():
     ap.add_argument("--files", default="*")
     ap.add_argument("--out", default="/tmp/mutate_survivors.json")
     ap.add_argument("--list-only", action="store_true")
+    ap.add_argument("--extended-only", action="store_true", help="only the tidy-up operators (normalising call removed, "
+                    "any keyword dropped, None test -> truthiness)")
     a = ap.parse_args()
     _init()
     prog = _STATE["prog"]
@@ -65,8 +67,9 @@ def main():
     for m in sorted(prog.modules.values(), key=lambda m: m.relpath):
         if m.relpath in SKIP_FILES or not fnmatch.fnmatch(m.relpath, a.files):
             continue
-        c = Collector(m.tree)
-        jobs += [(m.relpath, s) for s in c.sites]
+        c = Collector(m.tree, extended=a.extended_only)
+        jobs += [(m.relpath, s) for s in c.sites if not a.extended_only or s[1].startswith("drop-kw:") or
+                 s[1] in ("unwrap-call", "none-test->truthiness", "drop-kw")]
     print(len(jobs), "mutants")
     if a.list_only:
         return
